@@ -65,16 +65,26 @@ REFINED = ["add_one_in_place", "sub_one_in_place", "add_word_in_place", "sub_wor
            "the allocation guards of pow: the up-front result buffer of pow_word_base (exp/wexp + 1 words, checked_add) / "
            "pow_dword_base (2*exp, checked_mul) and the final << (shl_one_spilled / shl_dword_spilled / shl_large_ref -> "
            "Buffer::allocate(n), n > MAX_CAPACITY = usize::MAX / WORD_BITS => panic_allocate_too_much): mirrored, executed, and UBig::pow / IBig::pow "
-           "characterised completely (panic iff powAllocPanics, a predicate on values; else exact canonical power)"]
+           "characterised completely (panic iff powAllocPanics, a predicate on values; else exact canonical power)",
+           "link to C19 (round 7, Props/C01Arch.lean): add_same_len_in_place / sub_same_len_in_place / "
+           "sub_same_len_in_place_swap written as the Rust loops (Boolean carry) over arch::add::add_with_carry / "
+           "sub_with_borrow REGENERATED from arch/generic/add.rs (every W) and arch/x86_64, arch/x86 (one intrinsic each; "
+           "W = 64 / 32) compute exactly the model's addSameLen / subSameLen / subSameLenSwap "
+           "(word_loops_over_regenerated_arch); at every other call site the regenerated routine returns the model's "
+           "s % 2^W, s / 2^W and d % 2^W, 1 - d / 2^W expressions (arch_step_is_model_step)"]
 FRONTIER = ["pow results between ~2^22 bits and the MAX_CAPACITY guard (2^22 < exp*shift < 2^64 - 64, or an odd part > 1 "
             "with a huge exponent): the model states the exact power, but neither side can be EXECUTED — the real code would "
             "really allocate (outcome 'out of memory' or success depends on the allocator and the machine, not on dashu), the "
             "model would build the number; the theorem u_pow_guarded_iff covers these inputs, the correspondence does not",
             "Buffer capacity policy (default_capacity growth/clamping, reallocation) and MemoryAllocation::new size/align "
             "arithmetic are C17's ledger model; only the MAX_CAPACITY comparison of Buffer::allocate is mirrored here",
-            "arch intrinsics (add_with_carry, sub_with_borrow, overflowing_add/sub, checked_sub, wrapping_neg, "
-            "extend_word/split_dword/shrink_dword) are taken at their documented contracts: they are compiler/hardware "
-            "primitives, no executable model below them",
+            "arch layer: add_with_carry / sub_with_borrow are no longer at contract — their bodies are regenerated by C19 "
+            "(Gen/ArchAdd.lean) and linked to the word loops (Props/C01Arch.lean); what remains at the documented contract "
+            "are the primitives BELOW them: Word::overflowing_add/sub, the x86 intrinsics _addcarry_u64/_subborrow_u64 "
+            "(C19's stated assumption), checked_sub, wrapping_neg, extend_word/split_dword/shrink_dword — compiler/hardware "
+            "primitives, no executable model below them; the link is proved for the three same-length loops of add.rs as "
+            "whole loops and for every other call site as a single step (arch_step_is_model_step), not by regenerating those "
+            "other loop bodies",
             "THRESHOLD_KARATSUBA appears as the literal 192 in the Toom-3 scratch-potential argument (Proofs/Int/Memory.lean): a "
             "change of that constant is reported as a broken obligation (no-failing-input-found), not re-proved automatically"]
 RULE = ("operand sizes drawn from the size classes {0,1,2,3,4,5, thr-1,thr,thr+1 for thr in 24,32,192, 385, 400, 1025, 2049...} x "
@@ -575,8 +585,10 @@ LEVEL_TEXT = ("Machine-checked Lean 4 theorems, for every word size W >= 1, ever
               "Scratch-memory sufficiency of mul_large/square_large is proved for all sizes.")
 LEVEL_NOTE = ("Trusted: Lean kernel; axioms propext/Classical.choice/Quot.sound; the correspondence harness and generators "
               "(sampling) for the tie kernels<->code (the dispatch above the kernels is regenerated, not sampled); the extraction "
-              "script vlib/extract_intdispatch.py (fails closed on any construct outside its subset); arch intrinsics "
-              "(add_with_carry, sub_with_borrow, overflowing_add, split_dword/extend_word) at their documented contracts; "
+              "script vlib/extract_intdispatch.py (fails closed on any construct outside its subset); arch primitives "
+              "(overflowing_add/sub, the x86 _addcarry/_subborrow intrinsics, split_dword/extend_word) at their documented "
+              "contracts — add_with_carry / sub_with_borrow themselves are regenerated (C19, Gen/ArchAdd.lean) and proved to be "
+              "the carry step of the word loops (Props/C01Arch.lean); "
               "usize = 64 bits; pow results that would need a real allocation "
               "between ~2^22 bits and MAX_CAPACITY words are covered by theorem only (not executable on either side); "
               "buffer capacity policy / allocation layout is C17.")
@@ -584,6 +596,6 @@ TECHNIQUE = "Lean 4 refinement proofs (induction over word lists, all W) + diffe
 
 # Tie A: IBig sign tables regenerated from integer/src/{add_ops,mul_ops}.rs on every run
 USES_GEN = True
-GEN_PROPS = ["Dashu.Props.GenInt", "Dashu.Props.C01Dispatch"]
-GEN_AUDIT = ["Dashu.Audit.GenInt", "Dashu.Audit.C01Dispatch"]
+GEN_PROPS = ["Dashu.Props.GenInt", "Dashu.Props.C01Dispatch", "Dashu.Props.C01Arch"]
+GEN_AUDIT = ["Dashu.Audit.GenInt", "Dashu.Audit.C01Dispatch", "Dashu.Audit.C01Arch"]
 READY = True
